@@ -46,8 +46,9 @@ class BufferingDestination(object):
 
 
 # Taken only by a forked child that replaces the lock it inherited, see
-# Destinations._get_buffering_lock:
-_AFTER_FORK_LOCK = Lock()
+# Destinations._get_buffering_lock. (Re-entrant: a signal handler that logs
+# may interrupt the thread that holds it, in its own first logging call.)
+_AFTER_FORK_LOCK = RLock()
 
 
 class Destinations(object):
